@@ -46,6 +46,23 @@ def scratch_repo():
     return _scratch
 
 
+def hash_sweep(script, seeds=(0, 1, 2, 3, 4, 5, 6, 7), cwd=None, timeout=300):
+    """runs `script` (Python source printing one JSON value on its last line) in a fresh interpreter per hash seed (PYTHONHASHSEED), the scratch copy of
+    the package first on its path; returns [(seed, value | None, stderr tail)].  What a model means does not depend on the iteration order of sets."""
+    import subprocess
+    out = []
+    pre = "import sys\nsys.path.insert(0, %r)\n" % scratch_repo()
+    for sd in seeds:
+        p = subprocess.run([sys.executable, "-c", pre + script], stdout=subprocess.PIPE, stderr=subprocess.PIPE, universal_newlines=True, timeout=timeout, cwd=cwd,
+                           env=dict(os.environ, PYTHONHASHSEED=str(sd)))
+        try:
+            val = json.loads(p.stdout.strip().split("\n")[-1]) if p.returncode == 0 else None
+        except ValueError:
+            val = None
+        out.append((sd, val, p.stderr[-400:]))
+    return out
+
+
 def prior_activity(seed=0):
     """What an interpreter that has been in use looks like: other programs were parsed, loaded, built and run before the one under test.
     Every property is stated for any such history (C11, C16, C19, C20 say so explicitly), so every check starts from a used process:
